@@ -1,28 +1,37 @@
-import NfcVerif.Lemmas.IsoDepLive
+import NfcVerif.Lemmas.IsoDepV2Live
 /-!
 # C12 - ISO-DEP exchanges each APDU exactly once or reports a tag error
 
-Statements; the invariant proofs are in `Lemmas/IsoDep.lean`.  Model:
-`Model/IsoDep.lean` - `exchange` is `IsoDepInitiator.exchange` (with the repairs of
-`fixes/C12`: S(WTX) answered inside the retry loops, no further command after an unrecoverable
-error), `isoPeer cfg` an ISO/IEC 14443-4 PICC with an arbitrary application `cfg.app`, arbitrary
-response block size and arbitrary placement of S(WTX) requests, the `World` carries an arbitrary
-fault script (`d`eliver, `l`ose, `c`orrupt, `p`rotocol error, `e`mpty frame, per transmitted block).
+Statements; the invariant proofs are in `Lemmas/IsoDepV2.lean` (safety), `Lemmas/IsoDepV2Term.lean` (termination
+against every card), `Lemmas/IsoDepV2Live.lean` (absorbed faults).  Model: `Model/IsoDepV2.lean` - `exchange` is
+`IsoDepInitiator.exchange` with the repairs of `fixes/C12` (S(WTX) answered inside the retry loops, no further command
+after an unrecoverable error) and of `fixes/C08/0010 - 0012` (retransmissions after R(ACK) counted, empty / oversized
+chained response refused, S(WTX) multiplier checked and the granted waiting time limited); `isoPeer cfg` is an ISO/IEC
+14443-4 PICC with an arbitrary application `cfg.app`, arbitrary response block size and arbitrary placement of S(WTX)
+requests (`Model/IsoDep.lean`), `Peer σ` is ANY card, the `World` carries an arbitrary fault script (`d`eliver, `l`ose,
+`c`orrupt, `p`rotocol error, `e`mpty frame, per transmitted block).
 
-`SessInv pcd card` (no unrecoverable error so far => card and reader in step, no partial command
-chain in the card) holds after activation (`sess_init`) and is preserved by every exchange,
-successful or not (`isodep_session_inv`), so the theorems hold for every exchange of every
-session (`isodep_session_exact`), without any hypothesis on the state left by earlier failures.
+`SessInv pcd card` (the block number is a block number; no unrecoverable error so far => card and reader in step, no
+partial command chain in the card) holds after activation (`sess_init`) and is preserved by every operation of a
+session - command exchanges, successful or not, and presence checks (`isodep_session_inv`, `isodep_session_ops`) - so
+the theorems hold for every exchange of every session without any hypothesis on the state left by earlier failures.
+
+The statements about the loops as they were before `fixes/C08/0010 - 0012` are kept in `Props/C12AsFound.lean`.
 -/
 namespace NfcVerif.C12
-open NfcVerif NfcVerif.IsoDep
+open NfcVerif NfcVerif.IsoDep2
+open NfcVerif.IsoDep hiding Pcd exchange exchangeCmd mkPcd activateA activateB presence sendApdu xchgW blockLoop
+  sendChunks recvChain exchangeCmd_post exchangeCmd_failed exchange_unfailed exchangeCmd_live xchgW_post blockLoop_post
+  sendChunks_post recvChain_post ExchPost Pot LLive xchgW_succ xchgW_step_em xchgW_live_echo xchgW_live_first
+  blockLoop_live sendChunks_live recvChain_live
 
-/-- the session invariant: as long as no unrecoverable error was raised, card and reader are in step -/
-def SessInv (pcd : Pcd) (c : Card) : Prop := pcd.failed = none → pcd.pni < 2 ∧ Sync pcd.pni c
+/-- the session invariant: the reader's block number is 0 or 1, and as long as no unrecoverable error was raised card
+and reader are in step -/
+def SessInv (pcd : Pcd) (c : Card) : Prop := pcd.pni < 2 ∧ (pcd.failed = none → Sync pcd.pni c)
 
 /-- activation state: PCD block number 0, PICC block number 1 (rules A and C), for every FSCI/FWI/device limit -/
 theorem sess_init (fsci fwi maxSend : Nat) : SessInv (mkPcd fsci fwi maxSend) Card.init :=
-  fun _ => ⟨by simp [mkPcd], ⟨rfl, rfl⟩⟩
+  ⟨by simp [mkPcd], fun _ => ⟨rfl, rfl⟩⟩
 
 /-- what one `exchange` guarantees in a session -/
 def StepPost (cfg : CardCfg) (cmd : Bytes) (w : World Card) (r : World Card × Pcd × Py Bytes) : Prop :=
@@ -32,15 +41,17 @@ def StepPost (cfg : CardCfg) (cmd : Bytes) (w : World Card) (r : World Card × P
 
 theorem exchange_step (cfg : CardCfg) (F : Nat) (pcd : Pcd) (cmd : Bytes) (w : World Card)
     (hs : SessInv pcd w.card) : StepPost cfg cmd w (exchange (isoPeer cfg) F pcd cmd w) := by
-  unfold exchange
+  have hplt := exchange_pni_lt (isoPeer cfg) F pcd cmd w hs.1
+  unfold exchange at hplt ⊢
   cases hf : pcd.failed with
   | some e =>
     simp only
     refine ⟨Or.inl rfl, (by intro x hx; cases hx), ?_⟩
-    intro _ hn; rw [hf] at hn; cases hn
+    intro _; exact ⟨hs.1, fun hn => by rw [hf] at hn; cases hn⟩
   | none =>
-    simp only
-    obtain ⟨hp, hsync⟩ := hs hf
+    simp only [hf] at hplt ⊢
+    obtain ⟨hp, hsync'⟩ := hs
+    have hsync := hsync' hf
     have hfl := exchangeCmd_failed (isoPeer cfg) F pcd cmd w
     by_cases h : pcd.miu ≤ 0 ∨ cmd = []
     · -- nothing is sent: ValueError / UnboundLocalError before the first block
@@ -56,7 +67,7 @@ theorem exchange_step (cfg : CardCfg) (F : Nat) (pcd : Pcd) (cmd : Bytes) (w : W
             · exact Or.inr h
           simp [h0, this]
       rcases hun with hun | hun <;> rw [hun] <;> simp only <;>
-        exact ⟨Or.inl rfl, (by intro x hx; cases hx), fun _ _ => ⟨hp, hsync⟩⟩
+        exact ⟨Or.inl rfl, (by intro x hx; cases hx), fun _ => ⟨hp, fun _ => hsync⟩⟩
     · have hpos : 0 < pcd.miu := by
         by_cases h' : pcd.miu ≤ 0
         · exact absurd (Or.inl h') h
@@ -66,12 +77,12 @@ theorem exchange_step (cfg : CardCfg) (F : Nat) (pcd : Pcd) (cmd : Bytes) (w : W
       have := exchangeCmd_post cfg F pcd cmd w pcd.miu.toNat (by omega) hm hc hp hsync (fun _ => True)
         (fun _ _ => trivial) (fun _ _ => trivial)
       obtain ⟨_, hres⟩ := this
-      generalize exchangeCmd (isoPeer cfg) F pcd cmd w = r at hres hfl ⊢
+      generalize exchangeCmd (isoPeer cfg) F pcd cmd w = r at hres hfl hplt ⊢
       obtain ⟨w1, p1, res⟩ := r
       cases res with
       | ok x =>
-        simp only at hres hfl ⊢
-        refine ⟨Or.inr hres.1, ?_, fun _ _ => ⟨hres.2.2.1, hres.2.2.2⟩⟩
+        simp only at hres hfl hplt ⊢
+        refine ⟨Or.inr hres.1, ?_, fun _ => ⟨hres.2.2.1, fun _ => hres.2.2.2⟩⟩
         intro y hy; cases hy; exact ⟨hres.2.1, hres.1⟩
       | error e =>
         simp only at hres hfl ⊢
@@ -79,10 +90,10 @@ theorem exchange_step (cfg : CardCfg) (F : Nat) (pcd : Pcd) (cmd : Bytes) (w : W
         rcases hk with rfl | rfl | rfl | rfl
         · exact ⟨hlog, (by intro x hx; cases hx), fun hne => absurd rfl hne⟩
         all_goals
-          exact ⟨hlog, (by intro x hx; cases hx), fun _ hn => by simp at hn⟩
+          exact ⟨hlog, (by intro x hx; cases hx), fun _ => ⟨by simpa using hplt, fun hn => by simp at hn⟩⟩
 
-/-- **At most once.** For every card application, response block size, S(WTX) placement, fuel,
-retry budgets, frame size, command, *every fault script* and every state a session can be in:
+/-- **At most once.** For every card application, response block size, S(WTX) placement and multiplier, fuel,
+retry budgets, waiting time limit, frame size, command, *every fault script* and every state a session can be in:
 the card's execution log after `exchange` is the old log, or the old log plus exactly the command
 that was sent (never a second execution, never a truncated or spliced command) - also when
 `exchange` fails, and also after earlier failures. -/
@@ -92,11 +103,11 @@ theorem isodep_at_most_once (cfg : CardCfg) (F : Nat) (pcd : Pcd) (cmd : Bytes) 
     (exchange (isoPeer cfg) F pcd cmd w).1.card.log = w.card.log ++ [cmd] :=
   (exchange_step cfg F pcd cmd w hs).1
 
-example : (exchange (isoPeer ⟨2, 1, 1, 1, 3, fun n c => c ++ [n, 0x90, 0]⟩) 20 { pni := 0, miu := 2, nNak := 5, nAck := 5 }
+example : (exchange (isoPeer ⟨2, 1, 1, 1, 3, fun n c => c ++ [n, 0x90, 0]⟩) 20 { pni := 0, miu := 2, nNak := 5, nAck := 5, wlim := 9 }
     [1, 2, 3, 4, 5]
-    ⟨Card.init, [.d, .l, .l, .d, .c, .d, .d, .e, .d, .d, .d, .l], []⟩).1.card.log = [[1, 2, 3, 4, 5]] := by decide
-/-- the same exchange with a retry budget of 2 fails, nothing was executed -/
-example : (exchange (isoPeer ⟨2, 1, 1, 1, 3, fun n c => c ++ [n, 0x90, 0]⟩) 20 { pni := 0, miu := 3, nNak := 2, nAck := 2 }
+    ⟨Card.init, [.d, .l, .d, .c, .d, .d, .e, .d, .d, .d, .l], []⟩).1.card.log = [[1, 2, 3, 4, 5]] := by decide
+/-- the same exchange with a retry budget of 1 fails, nothing was executed -/
+example : (exchange (isoPeer ⟨2, 1, 1, 1, 3, fun n c => c ++ [n, 0x90, 0]⟩) 20 { pni := 0, miu := 3, nNak := 1, nAck := 1, wlim := 9 }
     [1, 2, 3, 4, 5]
     ⟨Card.init, [.d, .l, .l, .d, .c, .d, .d, .e, .d, .d, .d, .l], []⟩).1.card.log = [] := by decide
 
@@ -110,43 +121,16 @@ theorem isodep_response_exact (cfg : CardCfg) (F : Nat) (pcd : Pcd) (cmd : Bytes
     (exchange (isoPeer cfg) F pcd cmd w).1.card.log = w.card.log ++ [cmd] :=
   (exchange_step cfg F pcd cmd w hs).2.1 x hx
 
-/-- command chained in 3 blocks, response chained in 4 blocks, S(WTX) before every card block, 6 faults -/
-example : (exchange (isoPeer ⟨2, 1, 1, 1, 3, fun n c => c ++ [n, 0x90, 0]⟩) 20 { pni := 0, miu := 2, nNak := 5, nAck := 5 }
+/-- command chained in 3 blocks, response chained in 4 blocks, S(WTX) before every card block, 5 faults -/
+example : (exchange (isoPeer ⟨2, 1, 1, 1, 3, fun n c => c ++ [n, 0x90, 0]⟩) 20 { pni := 0, miu := 2, nNak := 5, nAck := 5, wlim := 9 }
     [1, 2, 3, 4, 5]
-    ⟨Card.init, [.d, .l, .l, .d, .c, .d, .d, .e, .d, .d, .d, .l], []⟩).2.2 = .ok [1, 2, 3, 4, 5, 0, 0x90, 0] := by decide
+    ⟨Card.init, [.d, .l, .d, .c, .d, .d, .e, .d, .d, .d, .l], []⟩).2.2 = .ok [1, 2, 3, 4, 5, 0, 0x90, 0] := by decide
 
 /-- **The session invariant is preserved** by every exchange, whether it succeeds or raises. -/
 theorem isodep_session_inv (cfg : CardCfg) (F : Nat) (pcd : Pcd) (cmd : Bytes) (w : World Card)
     (hs : SessInv pcd w.card) (hf : (exchange (isoPeer cfg) F pcd cmd w).2.2 ≠ .error .outOfFuel) :
     SessInv (exchange (isoPeer cfg) F pcd cmd w).2.1 (exchange (isoPeer cfg) F pcd cmd w).1.card :=
   (exchange_step cfg F pcd cmd w hs).2.2 hf
-
-/-- at-most-once and exact response for every command of a sequence run on one activation -/
-def SessionExact (cfg : CardCfg) (F : Nat) : List Bytes → Pcd → World Card → Prop
-  | [], _, _ => True
-  | c :: cs, pcd, w =>
-    ((exchange (isoPeer cfg) F pcd c w).1.card.log = w.card.log ∨
-     (exchange (isoPeer cfg) F pcd c w).1.card.log = w.card.log ++ [c]) ∧
-    (∀ x, (exchange (isoPeer cfg) F pcd c w).2.2 = .ok x →
-      x = cfg.app w.card.log.length c ∧ (exchange (isoPeer cfg) F pcd c w).1.card.log = w.card.log ++ [c]) ∧
-    ((exchange (isoPeer cfg) F pcd c w).2.2 ≠ .error .outOfFuel →
-      SessionExact cfg F cs (exchange (isoPeer cfg) F pcd c w).2.1 (exchange (isoPeer cfg) F pcd c w).1)
-
-/-- **Sessions.** Any sequence of commands on one activation, any fault script, failed exchanges included: every
-command is executed at most once and every response returned is the exact response to its command
-(`outOfFuel` is the model's marker for "more than `F` blocks in one loop", see `isodep_absorbs` / `isodep_terminates`). -/
-theorem isodep_session_exact (cfg : CardCfg) (F : Nat) (cmds : List Bytes) :
-    ∀ (pcd : Pcd) (w : World Card), SessInv pcd w.card → SessionExact cfg F cmds pcd w := by
-  induction cmds with
-  | nil => intro _ _ _; trivial
-  | cons c cs ih =>
-    intro pcd w hs
-    obtain ⟨h1, h2, h3⟩ := exchange_step cfg F pcd c w hs
-    exact ⟨h1, h2, fun hf => ih _ _ (h3 hf)⟩
-
-theorem isodep_session_from_activation (cfg : CardCfg) (F : Nat) (cmds : List Bytes) (fsci fwi maxSend : Nat)
-    (script : List Fault) : SessionExact cfg F cmds (mkPcd fsci fwi maxSend) ⟨Card.init, script, []⟩ :=
-  isodep_session_exact cfg F cmds _ _ (sess_init fsci fwi maxSend)
 
 /-- **After an unrecoverable error** no block is sent any more: the error is raised again, the card is not touched. -/
 theorem isodep_refuses_after_error {σ : Type} (P : Peer σ) (F : Nat) (pcd : Pcd) (cmd : Bytes) (w : World σ) (e : Int)
@@ -168,19 +152,104 @@ theorem isodep_error_sets_flag {σ : Type} (P : Peer σ) (F : Nat) (pcd : Pcd) (
     | error e' =>
       cases e' <;> simp only at h ⊢ <;> first | (cases h; rfl) | (cases h)
 
-def exCfg : CardCfg := ⟨253, 0, 0, 0, 1, fun n c => c ++ [n, 0x90, 0]⟩
-def exPcd : Pcd := { pni := 0, miu := 253, nNak := 1, nAck := 1 }
-/-- first exchange: command delivered, response and its retransmission lost; second exchange: I-block would be lost -/
-def exWorld : World Card := ⟨Card.init, [.d, .l, .d, .l, .l, .d, .d], []⟩
+/-- the error flag holds one of the three documented error numbers -/
+def FlagOk (pcd : Pcd) : Prop :=
+  ∀ e, pcd.failed = some e → e = TIMEOUT_ERROR ∨ e = RECEIVE_ERROR ∨ e = PROTOCOL_ERROR
 
-/-- the witness of the former finding `isodep-stale-after-error`: the second command used to return the response of
-the first one; now it raises the error of the first exchange and the card sees no further block -/
-example :
-    (exchange (isoPeer exCfg) 8 exPcd [1, 1] exWorld).2.2 = .error (.tagCmd TIMEOUT_ERROR) ∧
-    (exchange (isoPeer exCfg) 8 (exchange (isoPeer exCfg) 8 exPcd [1, 1] exWorld).2.1 [2, 2]
-      (exchange (isoPeer exCfg) 8 exPcd [1, 1] exWorld).1).2.2 = .error (.tagCmd TIMEOUT_ERROR) ∧
-    (exchange (isoPeer exCfg) 8 (exchange (isoPeer exCfg) 8 exPcd [1, 1] exWorld).2.1 [2, 2]
-      (exchange (isoPeer exCfg) 8 exPcd [1, 1] exWorld).1).1.trace = [[2, 1, 1], [0xB2]] := by decide
+theorem flagOk_err3 {pcd : Pcd} (h : FlagOk pcd) : ∀ e, pcd.failed = some e → Err3 (.tagCmd e) := by
+  intro e he
+  rcases h e he with rfl | rfl | rfl
+  · exact Or.inl rfl
+  · exact Or.inr (Or.inl rfl)
+  · exact Or.inr (Or.inr rfl)
+
+/-- **Termination, against EVERY card.**  Whatever the card answers (any `Peer`: any state, any answer to any block -
+endless S(WTX) requests, R(ACK) with the other block number for ever, chained blocks for ever, garbage), whatever the
+fault script and the command: once the model's fuel exceeds `fuelNeed pcd = max(max_wtxm_sum + 1, n_retry + 2, 65540)`
+no loop of `exchange` uses it up - every loop of the repaired `IsoDepInitiator.exchange` ends - and the exchange
+hands at most `exchFrames pcd len(command)` blocks to the reader:
+`len * (n_nak + 1) * (max_wtxm_sum + 1) + 65539 * (n_ack + 1) * (max_wtxm_sum + 1)`. -/
+theorem isodep_terminates {σ : Type} (P : Peer σ) (F : Nat) (pcd : Pcd) (cmd : Bytes) (w : World σ)
+    (hF : fuelNeed pcd ≤ F) (hp : pcd.pni < 2) :
+    (exchange P F pcd cmd w).2.2 ≠ .error .outOfFuel ∧
+    (exchange P F pcd cmd w).1.trace.length ≤ w.trace.length + exchFrames pcd cmd.length :=
+  let h := exchange_spec P F pcd hF hp cmd w
+  ⟨h.1, h.2.2.2.1⟩
+
+/-- a card that asks for waiting time for ever (multiplier 59, FWI 14: limit 59): the exchange ends with
+`TIMEOUT_ERROR` after the I-block and one granted request; the fuel 70000 is not used up -/
+example : (exchange (⟨fun (_ : Unit) _ => ((), some [0xF2, 59])⟩ : Peer Unit) 70000 { pni := 0, miu := 13, nNak := 0, nAck := 0, wlim := 59 }
+    [1, 2] ⟨(), [], []⟩).2.2 = .error (.tagCmd TIMEOUT_ERROR) ∧
+    (exchange (⟨fun (_ : Unit) _ => ((), some [0xF2, 59])⟩ : Peer Unit) 70000 { pni := 0, miu := 13, nNak := 0, nAck := 0, wlim := 59 }
+    [1, 2] ⟨(), [], []⟩).1.trace = [[2, 1, 2], [0xF2, 59]] := by decide
+/-- a card that answers every block with R(ACK) for the other block number: `PROTOCOL_ERROR` after `n + 1` I-blocks -/
+example : (exchange (⟨fun (_ : Unit) _ => ((), some [0xA3])⟩ : Peer Unit) 70000 { pni := 0, miu := 13, nNak := 2, nAck := 2, wlim := 59 }
+    [1, 2] ⟨(), [], []⟩).2.2 = .error (.tagCmd PROTOCOL_ERROR) ∧
+    (exchange (⟨fun (_ : Unit) _ => ((), some [0xA3])⟩ : Peer Unit) 70000 { pni := 0, miu := 13, nNak := 2, nAck := 2, wlim := 59 }
+    [1, 2] ⟨(), [], []⟩).1.trace = [[2, 1, 2], [2, 1, 2], [2, 1, 2]] := by decide
+/-- a card that chains empty blocks for ever: `PROTOCOL_ERROR` at the first one -/
+example : (exchange (⟨fun (_ : Unit) _ => ((), some [0x12])⟩ : Peer Unit) 70000 { pni := 0, miu := 13, nNak := 2, nAck := 2, wlim := 59 }
+    [1, 2] ⟨(), [], []⟩).2.2 = .error (.tagCmd PROTOCOL_ERROR) := by decide
+
+/-- the bound for the parameters an activation can produce: the retry budget is at most 5, the S(WTX) limit at most
+`59 * 2^14`; fuel `966657` is enough for every activated tag and an exchange never needs more than
+`(len + 65539) * 6 * 966657` blocks (the astronomical figure is the price of FWI 0, where 292 seconds of granted waiting
+time are 966656 requests; for FWI ≥ 8 the limit is below 3777) -/
+theorem isodep_terminates_activated {σ : Type} (P : Peer σ) (fsci fwi maxSend : Nat) (cmd : Bytes) (script : List Fault) (s : σ) :
+    fuelNeed (mkPcd fsci fwi maxSend) ≤ 966657 ∧
+    (exchange P 966657 (mkPcd fsci fwi maxSend) cmd ⟨s, script, []⟩).2.2 ≠ .error .outOfFuel ∧
+    (exchange P 966657 (mkPcd fsci fwi maxSend) cmd ⟨s, script, []⟩).1.trace.length ≤ (cmd.length + 65539) * (6 * 966657) := by
+  have hw : wtxLimit fwi ≤ 966656 := by
+    unfold wtxLimit
+    have : 2 ^ (14 - deriveFwi fwi) ≤ 2 ^ 14 := Nat.pow_le_pow_right (by omega) (by omega)
+    omega
+  have hn : deriveRetry fwi ≤ 5 := by unfold deriveRetry; omega
+  have hfuel : fuelNeed (mkPcd fsci fwi maxSend) ≤ 966657 := by
+    unfold fuelNeed mkPcd
+    simp only
+    omega
+  have h := isodep_terminates P 966657 (mkPcd fsci fwi maxSend) cmd ⟨s, script, []⟩ hfuel (by simp [mkPcd])
+  refine ⟨hfuel, h.1, Nat.le_trans h.2 ?_⟩
+  have hl : loopFrames (wtxLimit fwi) (deriveRetry fwi) ≤ 6 * 966657 := by
+    unfold loopFrames
+    exact Nat.mul_le_mul (by omega) (by omega)
+  simp only [List.length_nil, Nat.zero_add, exchFrames, mkPcd]
+  rw [Nat.add_mul]
+  exact Nat.add_le_add (Nat.mul_le_mul_left _ hl) (Nat.mul_le_mul_left _ hl)
+
+/-- **Error kind.** Whatever the card does (any `Peer`, not only the ISO PICC), every fault script, every session
+state: if `exchange` raises for a command APDU, it raises `Type4TagCommandError` with errno `TIMEOUT_ERROR`,
+`RECEIVE_ERROR` or `PROTOCOL_ERROR` - no `IndexError`, no raw `nfc.clf` exception, and (with the repairs) no
+endless loop: `outOfFuel` does not occur. -/
+theorem isodep_error_kind {σ : Type} (P : Peer σ) (F : Nat) (pcd : Pcd) (cmd : Bytes) (w : World σ)
+    (hF : fuelNeed pcd ≤ F) (hp : pcd.pni < 2) (hm : 0 < pcd.miu) (hcmd : cmd ≠ []) (hfl : FlagOk pcd) :
+    (∀ e, (exchange P F pcd cmd w).2.2 = .error e →
+      e = .tagCmd TIMEOUT_ERROR ∨ e = .tagCmd RECEIVE_ERROR ∨ e = .tagCmd PROTOCOL_ERROR) ∧
+    FlagOk (exchange P F pcd cmd w).2.1 := by
+  have hres := (exchange_spec P F pcd hF hp cmd w).2.2.2.2.2 hm hcmd (flagOk_err3 hfl)
+  refine ⟨fun e he => by rw [he] at hres; exact hres, ?_⟩
+  intro e he
+  by_cases hf : pcd.failed = none
+  · -- the flag was set by this exchange: it holds the errno that was raised
+    have : (exchange P F pcd cmd w).2.2 = .error (.tagCmd e) := by
+      unfold exchange at he ⊢
+      simp only [hf] at he ⊢
+      have hfl' := exchangeCmd_failed P F pcd cmd w
+      generalize exchangeCmd P F pcd cmd w = r at he hfl' ⊢
+      obtain ⟨w1, p1, res⟩ := r
+      simp only at hfl'
+      cases res with
+      | ok x => simp only at he; rw [hfl', hf] at he; cases he
+      | error e' =>
+        cases e' <;> simp only at he ⊢ <;> first | (rw [hfl', hf] at he; cases he) | (cases he; rfl)
+    rw [this] at hres
+    rcases hres with h | h | h <;> cases h <;> simp
+  · obtain ⟨e0, he0⟩ := Option.ne_none_iff_exists'.mp hf
+    rw [isodep_refuses_after_error P F pcd cmd w e0 he0] at he
+    exact hfl e he
+
+example : (exchange (isoPeer ⟨2, 1, 0, 0, 3, fun n c => c ++ [n, 0x90, 0]⟩) 20 { pni := 0, miu := 3, nNak := 1, nAck := 1, wlim := 9 } [1, 2]
+    ⟨Card.init, [.d, .d, .d, .c, .d, .l], []⟩).2.2 = .error (.tagCmd TIMEOUT_ERROR) := by decide
 
 /-- **send_apdu.** When `send_apdu(..., check_status=True)` returns `x`, the card executed exactly one command, namely
 the ISO 7816-4 encoding of the arguments, and answered `x` followed by the status word 9000; any other status word
@@ -212,113 +281,61 @@ theorem isodep_send_apdu_exact (cfg : CardCfg) (F : Nat) (pcd : Pcd) (ext : Bool
           rw [← hx, ← hsw, List.take_append_drop]
         · simp [hlen, hsw] at hx
 
-example : (sendApdu (isoPeer ⟨3, 0, 0, 0, 1, fun _ c => c.take 2 ++ [0x90, 0]⟩) 20 { pni := 0, miu := 4, nNak := 2, nAck := 2 } false 0 0xB0 0 0 [] 2 true
+example : (sendApdu (isoPeer ⟨3, 0, 0, 0, 1, fun _ c => c.take 2 ++ [0x90, 0]⟩) 20 { pni := 0, miu := 4, nNak := 2, nAck := 2, wlim := 9 } false 0 0xB0 0 0 [] 2 true
     ⟨Card.init, [.d, .l, .c], []⟩).2.2 = .ok [0, 0xB0] := by decide
 
-/-- the error flag holds one of the three documented error numbers -/
-def FlagOk (pcd : Pcd) : Prop :=
-  ∀ e, pcd.failed = some e → e = TIMEOUT_ERROR ∨ e = RECEIVE_ERROR ∨ e = PROTOCOL_ERROR
-
-/-- **Error kind.** Whatever the card does (any `Peer`, not only the ISO PICC), every fault script, every session
-state: if `exchange` raises, it raises `Type4TagCommandError` with errno `TIMEOUT_ERROR`, `RECEIVE_ERROR` or
-`PROTOCOL_ERROR` - no `IndexError`, no raw `nfc.clf` exception.  (`outOfFuel` is not a Python exception:
-it marks a run in which the card kept the reader busy for more than `F` blocks in one loop; `isodep_terminates`
-excludes it for the ISO card.) -/
-theorem isodep_error_kind {σ : Type} (P : Peer σ) (F : Nat) (pcd : Pcd) (cmd : Bytes) (w : World σ)
-    (hm : 0 < pcd.miu) (hcmd : cmd ≠ []) (hfl : FlagOk pcd) :
-    (∀ e, (exchange P F pcd cmd w).2.2 = .error e →
-      e = .outOfFuel ∨ e = .tagCmd TIMEOUT_ERROR ∨ e = .tagCmd RECEIVE_ERROR ∨ e = .tagCmd PROTOCOL_ERROR) ∧
-    FlagOk (exchange P F pcd cmd w).2.1 := by
-  unfold exchange
-  cases hf : pcd.failed with
-  | some e' =>
-    simp only
-    rcases hfl e' hf with rfl | rfl | rfl
-    · exact ⟨fun e h => (by cases h; simp), hfl⟩
-    · exact ⟨fun e h => (by cases h; simp), hfl⟩
-    · exact ⟨fun e h => (by cases h; simp), hfl⟩
-  | none =>
-    simp only
-    have hk := exchangeCmd_error_kind_any P F pcd cmd w hm hcmd
-    have hfl' := exchangeCmd_failed P F pcd cmd w
-    generalize exchangeCmd P F pcd cmd w = r at hk hfl' ⊢
-    obtain ⟨w1, p1, res⟩ := r
-    simp only at hk hfl'
-    have hp1 : FlagOk p1 := by intro e he; rw [hfl', hf] at he; cases he
-    cases res with
-    | ok x => exact ⟨fun e h => (by cases h), hp1⟩
-    | error e' =>
-      rcases hk e' rfl with rfl | rfl | rfl | rfl
-      · exact ⟨fun e h => (by cases h; simp), hp1⟩
-      · exact ⟨fun e h => (by cases h; simp), fun e he => by simp at he; subst he; simp⟩
-      · exact ⟨fun e h => (by cases h; simp), fun e he => by simp at he; subst he; simp⟩
-      · exact ⟨fun e h => (by cases h; simp), fun e he => by simp at he; subst he; simp⟩
-
-example : (exchange (isoPeer ⟨2, 1, 0, 0, 3, fun n c => c ++ [n, 0x90, 0]⟩) 20 { pni := 0, miu := 3, nNak := 1, nAck := 1 } [1, 2]
-    ⟨Card.init, [.d, .d, .d, .c, .d, .l], []⟩).2.2 = .error (.tagCmd TIMEOUT_ERROR) := by decide
-
-/-- fuel of the model loops that is enough for the ISO card: `W` bounds the S(WTX) requests per block, the retry
-loops run at most `2n+3` times, the response chain has at most as many blocks as the response has octets -/
-def FuelEnough (cfg : CardCfg) (W F : Nat) (pcd : Pcd) (cmd : Bytes) (w : World Card) : Prop :=
+/-- what the absorption theorem asks of the card: it asks for waiting time at most `W` times per block, with a
+multiplier `WTXM & 0x3F` in 1..59 (ISO/IEC 14443-4 7.3) and `W` requests stay within the reader's limit; its chained
+response blocks are not empty and its response has at most 65539 octets (a response APDU has at most 65538) -/
+def CardOk (cfg : CardCfg) (W : Nat) (pcd : Pcd) (cmd : Bytes) (w : World Card) : Prop :=
   1 ≤ cfg.chunk ∧ cfg.wtxAck ≤ W ∧ cfg.wtxI ≤ W ∧ cfg.wtxChain ≤ W ∧
-  W + 1 ≤ F ∧ 2 * pcd.nNak + 3 ≤ F ∧ 2 * pcd.nAck + 3 ≤ F ∧ (cfg.app w.card.log.length cmd).length < F
-
-/-- **Termination.** Against the ISO/IEC 14443-4 card every loop of `exchange` ends, for every fault script: the
-`outOfFuel` disjunct of `isodep_error_kind` does not occur once the fuel exceeds the stated bounds (the card
-sends at most `W` S(WTX) requests per block and its response blocks are not empty). -/
-theorem isodep_terminates (cfg : CardCfg) (W F : Nat) (pcd : Pcd) (cmd : Bytes) (w : World Card)
-    (hs : SessInv pcd w.card) (hm : 0 < pcd.miu) (hcmd : cmd ≠ []) (hfuel : FuelEnough cfg W F pcd cmd w) :
-    (exchange (isoPeer cfg) F pcd cmd w).2.2 ≠ .error .outOfFuel := by
-  cases hf : pcd.failed with
-  | some e => rw [isodep_refuses_after_error _ F pcd cmd w e hf]; simp
-  | none =>
-    obtain ⟨hp, hsync⟩ := hs hf
-    obtain ⟨h1, h2, h3, h4, h5, h6, h7, h8⟩ := hfuel
-    rw [(exchange_unfailed _ F pcd cmd w hf).1]
-    exact (exchangeCmd_live cfg W F pcd cmd w pcd.miu.toNat (by omega) (by omega) hcmd hp hsync h1 h2 h3 h4 h5 h6 h7 h8).1
-
-/-- the documented errors only, for the ISO card -/
-theorem isodep_error_kind_iso (cfg : CardCfg) (W F : Nat) (pcd : Pcd) (cmd : Bytes) (w : World Card)
-    (hs : SessInv pcd w.card) (hm : 0 < pcd.miu) (hcmd : cmd ≠ []) (hfl : FlagOk pcd)
-    (hfuel : FuelEnough cfg W F pcd cmd w) (e : Exc) (h : (exchange (isoPeer cfg) F pcd cmd w).2.2 = .error e) :
-    e = .tagCmd TIMEOUT_ERROR ∨ e = .tagCmd RECEIVE_ERROR ∨ e = .tagCmd PROTOCOL_ERROR := by
-  rcases (isodep_error_kind (isoPeer cfg) F pcd cmd w hm hcmd hfl).1 e h with rfl | h' | h' | h'
-  · exact absurd h (isodep_terminates cfg W F pcd cmd w hs hm hcmd hfuel)
-  · exact Or.inl h'
-  · exact Or.inr (Or.inl h')
-  · exact Or.inr (Or.inr h')
+  1 ≤ cfg.wtxm &&& 0x3F ∧ cfg.wtxm &&& 0x3F ≤ 59 ∧ W * (cfg.wtxm &&& 0x3F) ≤ pcd.wlim ∧
+  (cfg.app w.card.log.length cmd).length ≤ 65539
 
 /-- **Absorbed faults.** If the fault script (over the whole exchange: all command blocks, S(WTX) exchanges and response
-blocks) contains `k` lost / corrupted / empty blocks with `2k ≤ n_retry + 1` and no reader protocol error, the exchange
-succeeds and returns the card's response.  The bound is exact for the code as written: the retransmission of an I-block
-after R(ACK) advances the retry counter as well, so a fault can cost two counts; `k ≤ n_retry` is *not* enough
-(`isodep_absorbs_bound_tight`). -/
+blocks) contains `k` lost / corrupted / empty blocks with `2k ≤ n_retry` and no reader protocol error, and the card keeps
+to `CardOk`, the exchange succeeds and returns the card's response.  The bound is exact for the repaired code: a block
+lost on its way to the card costs the R(NAK) and the retransmission after R(ACK), and since `fixes/C08/0010` both must
+be within the budget (`isodep_absorbs_bound_tight`; before that repair the bound was `2k ≤ n_retry + 1`,
+`isodep_absorbs_before_0010`). -/
 theorem isodep_absorbs (cfg : CardCfg) (W F : Nat) (pcd : Pcd) (cmd : Bytes) (w : World Card)
     (hs : SessInv pcd w.card) (hf : pcd.failed = none) (hm : 0 < pcd.miu) (hcmd : cmd ≠ [])
-    (hfuel : FuelEnough cfg W F pcd cmd w) (hnp : Fault.p ∉ w.script)
-    (hk1 : 2 * nfaults w.script ≤ pcd.nNak + 1) (hk2 : 2 * nfaults w.script ≤ pcd.nAck + 1) :
+    (hF : fuelNeed pcd ≤ F) (hcard : CardOk cfg W pcd cmd w) (hnp : Fault.p ∉ w.script)
+    (hk1 : 2 * nfaults w.script ≤ pcd.nNak) (hk2 : 2 * nfaults w.script ≤ pcd.nAck) :
     (exchange (isoPeer cfg) F pcd cmd w).2.2 = .ok (cfg.app w.card.log.length cmd) := by
-  obtain ⟨hp, hsync⟩ := hs hf
-  obtain ⟨h1, h2, h3, h4, h5, h6, h7, h8⟩ := hfuel
-  have hl := (exchangeCmd_live cfg W F pcd cmd w pcd.miu.toNat (by omega) (by omega) hcmd hp hsync h1 h2 h3 h4 h5 h6 h7 h8).2
-    hnp ⟨hk1, hk2⟩
+  obtain ⟨hp, hsync'⟩ := hs
+  have hsync := hsync' hf
+  obtain ⟨h1, h2, h3, h4, h5, h6, h7, h8⟩ := hcard
+  obtain ⟨fW, fN, fA, fC⟩ := fuelNeed_le hF
+  have hWle : W ≤ pcd.wlim := by
+    have : W * 1 ≤ W * (cfg.wtxm &&& 0x3F) := Nat.mul_le_mul_left W h5
+    omega
+  have hl := exchangeCmd_live cfg W F pcd cmd w pcd.miu.toNat (by omega) (by omega) hcmd hp hsync h1 h2 h3 h4
+    ⟨h5, h6⟩ h7 h8 (by omega) fN fA (by omega) hnp ⟨hk1, hk2⟩
   obtain ⟨⟨d, hd⟩, _⟩ := hl
   rw [← (exchange_unfailed _ F pcd cmd w hf).1] at hd
-  rw [hd, (isodep_response_exact cfg F pcd cmd w hs d hd).1]
+  rw [hd, (isodep_response_exact cfg F pcd cmd w ⟨hp, hsync'⟩ d hd).1]
 
-/-- 3 faults with the maximal budget 5 (2k-1 = 5): absorbed -/
-example : (exchange (isoPeer ⟨8, 1, 0, 0, 3, fun n c => c ++ [n, 0x90, 0]⟩) 14 { pni := 0, miu := 13, nNak := 5, nAck := 5 }
-    [1, 2] ⟨Card.init, [.l, .d, .d, .l, .d, .d, .d, .c], []⟩).2.2 = .ok [1, 2, 0, 0x90, 0] := by decide
+/-- 2 faults with the maximal budget 5 (2k = 4 ≤ 5), S(WTX) with multiplier 3 before the response: absorbed -/
+example : (exchange (isoPeer ⟨8, 1, 0, 0, 3, fun n c => c ++ [n, 0x90, 0]⟩) 14 { pni := 0, miu := 13, nNak := 5, nAck := 5, wlim := 3 }
+    [1, 2] ⟨Card.init, [.l, .d, .d, .l], []⟩).2.2 = .ok [1, 2, 0, 0x90, 0] := by decide
 
-/-- the bound is tight: budget 2, two faults (`2k = 4 > n + 1`): the I-block is lost, R(NAK) is answered by R(ACK), the
-I-block is retransmitted at count 3 and its answer is lost - `Type4TagCommandError` although only two blocks were lost -/
+/-- the bound is tight: budget 1, one fault (`2k = 2 > n`): the I-block is lost, R(NAK) is answered by R(ACK) and the
+retransmission would be count 2 - `PROTOCOL_ERROR` although a single block was lost and nothing else happened -/
 theorem isodep_absorbs_bound_tight :
-    (exchange (isoPeer ⟨8, 0, 0, 0, 3, fun n c => c ++ [n, 0x90, 0]⟩) 14 { pni := 0, miu := 13, nNak := 2, nAck := 2 }
-      [1, 2] ⟨Card.init, [.l, .d, .d, .d, .l], []⟩).2.2 = .error (.tagCmd TIMEOUT_ERROR) := by decide
+    (exchange (isoPeer ⟨8, 0, 0, 0, 3, fun n c => c ++ [n, 0x90, 0]⟩) 14 { pni := 0, miu := 13, nNak := 1, nAck := 1, wlim := 59 }
+      [1, 2] ⟨Card.init, [.l], []⟩).2.2 = .error (.tagCmd PROTOCOL_ERROR) := by decide
+
+/-- the same script before `fixes/C08/0010` (the as-found loops of `Model/IsoDep.lean`): the retransmission after R(ACK)
+was not counted and the lost block was absorbed - repair 0010 lowers the number of absorbed faults from
+`2k ≤ n + 1` to `2k ≤ n` -/
+theorem isodep_absorbs_before_0010 :
+    (IsoDep.exchange (isoPeer ⟨8, 0, 0, 0, 3, fun n c => c ++ [n, 0x90, 0]⟩) 14 { pni := 0, miu := 13, nNak := 1, nAck := 1 }
+      [1, 2] ⟨Card.init, [.l], []⟩).2.2 = .ok [1, 2, 0, 0x90, 0] := by decide
 
 /-- **Block bound.** With `miu = FSC - 3` every block handed to the reader during the exchange - I-blocks,
-R(ACK), R(NAK) and S(WTX) responses - is at most `FSC - 2` octets, i.e. fits the card's frame size with
-its two CRC octets. -/
+retransmitted I-blocks, R(ACK), R(NAK) and S(WTX) responses - is at most `FSC - 2` octets, i.e. fits the card's frame
+size with its two CRC octets. -/
 theorem isodep_block_bound (cfg : CardCfg) (F : Nat) (pcd : Pcd) (cmd : Bytes) (w : World Card) (fsc : Nat)
     (hfsc : 4 ≤ fsc) (hmiu : pcd.miu = (fsc : Int) - 3) (hcmd : cmd ≠ []) (hs : SessInv pcd w.card) :
     ∀ b ∈ (exchange (isoPeer cfg) F pcd cmd w).1.trace, b ∈ w.trace ∨ b.length + 2 ≤ fsc := by
@@ -326,8 +343,8 @@ theorem isodep_block_bound (cfg : CardCfg) (F : Nat) (pcd : Pcd) (cmd : Bytes) (
   cases hf : pcd.failed with
   | some e => intro b hb; exact Or.inl hb
   | none =>
-    obtain ⟨hp, hsync⟩ := hs hf
-    have := exchangeCmd_post cfg F pcd cmd w (fsc - 3) (by omega) (by omega) hcmd hp hsync
+    obtain ⟨hp, hsync⟩ := hs
+    have := exchangeCmd_post cfg F pcd cmd w (fsc - 3) (by omega) (by omega) hcmd hp (hsync hf)
       (fun b => b ∈ w.trace ∨ b.length + 2 ≤ fsc) (fun b hb => Or.inr (by omega)) (fun b hb => Or.inl hb)
     have h1 := this.1
     simp only
@@ -337,7 +354,7 @@ theorem isodep_block_bound (cfg : CardCfg) (F : Nat) (pcd : Pcd) (cmd : Bytes) (
     | ok x => exact h1
     | error e => cases e <;> exact h1
 
-/-- the frame size of the card after clamping to the device limit, FSCI 0..8 and RFU values -/
+/-- the frame size of the card after clamping to the device limit, FSCI 0..8 and the RFU values 9..15 -/
 theorem isodep_block_bound_derived (cfg : CardCfg) (F : Nat) (fsci fwi maxSend : Nat) (cmd : Bytes)
     (script : List Fault) (hdev : 4 ≤ maxSend) (hcmd : cmd ≠ []) :
     ∀ b ∈ (exchange (isoPeer cfg) F (mkPcd fsci fwi maxSend) cmd ⟨Card.init, script, []⟩).1.trace,
@@ -359,19 +376,176 @@ theorem isodep_block_bound_derived (cfg : CardCfg) (F : Nat) (fsci fwi maxSend :
 example : ∀ b ∈ (exchange (isoPeer ⟨13, 1, 0, 0, 3, fun n c => c ++ [n, 0x90, 0]⟩) 20 (mkPcd 0 4 256)
     (List.range 30) ⟨Card.init, [.d, .l], []⟩).1.trace, b.length + 2 ≤ 16 := by decide
 
+/-! ## sessions: commands and presence checks in any order -/
+
+/-- **The presence check does not touch the card**: `exchange(None)` sends R(NAK) with the reader's block number,
+which the card answers (R(ACK), or its last block again) without changing its state; exactly that one block is sent;
+the reader's state (block number, error latch) is not an output of the presence check at all. -/
+theorem isodep_presence_keeps_card (cfg : CardCfg) (pcd : Pcd) (w : World Card) (hp : pcd.pni < 2) :
+    (presence (isoPeer cfg) pcd w).1.card = w.card ∧
+    (presence (isoPeer cfg) pcd w).1.trace = w.trace ++ [[0xB2 ||| pcd.pni]] := by
+  have hrx : (Card.rx cfg w.card [0xB2 ||| pcd.pni]).1 = w.card := by
+    rcases bn_cases hp with h | h <;> rw [h] <;> simp [Card.rx] <;> split <;> rfl
+  rw [presence_world, xchg_trace]
+  refine ⟨?_, rfl⟩
+  rcases xchg_card (isoPeer cfg) w [0xB2 ||| pcd.pni] with h | h
+  · exact h
+  · rw [h]; exact hrx
+
+/-- what a sequence of operations (commands and presence checks in any order) guarantees, operation by operation:
+for a command the at-most-once / exact-response / error-kind / block-size / no-fuel clauses and - if an unrecoverable
+error was raised before - that nothing is sent and the same error is raised; for a presence check that the card is
+left as it was and one R(NAK) block is sent -/
+def OpsExact (cfg : CardCfg) (F fsc : Nat) : List Op → Pcd → World Card → Prop
+  | [], _, _ => True
+  | .cmd c :: os, pcd, w =>
+    ((exchange (isoPeer cfg) F pcd c w).1.card.log = w.card.log ∨
+     (exchange (isoPeer cfg) F pcd c w).1.card.log = w.card.log ++ [c]) ∧
+    (∀ x, (exchange (isoPeer cfg) F pcd c w).2.2 = .ok x →
+      x = cfg.app w.card.log.length c ∧ (exchange (isoPeer cfg) F pcd c w).1.card.log = w.card.log ++ [c]) ∧
+    (c ≠ [] → ∀ e, (exchange (isoPeer cfg) F pcd c w).2.2 = .error e → Err3 e) ∧
+    (∀ e, pcd.failed = some e → exchange (isoPeer cfg) F pcd c w = (w, pcd, .error (.tagCmd e))) ∧
+    (c ≠ [] → ∀ b ∈ (exchange (isoPeer cfg) F pcd c w).1.trace, b ∈ w.trace ∨ b.length + 2 ≤ fsc) ∧
+    OpsExact cfg F fsc os (exchange (isoPeer cfg) F pcd c w).2.1 (exchange (isoPeer cfg) F pcd c w).1
+  | .present :: os, pcd, w =>
+    (presence (isoPeer cfg) pcd w).1.card = w.card ∧
+    (presence (isoPeer cfg) pcd w).1.trace = w.trace ++ [[0xB2 ||| pcd.pni]] ∧
+    OpsExact cfg F fsc os pcd (presence (isoPeer cfg) pcd w).1
+
+/-- **Sessions.** Any sequence of commands and presence checks on one activation, any fault script, failed exchanges
+included: every command is executed at most once, every response returned is the exact response to its command, every
+failure is a `Type4TagCommandError` with a documented reason, every block fits the card's frame size, no loop runs out
+of fuel, a presence check never changes the card and never re-opens a session that an unrecoverable error has closed. -/
+theorem isodep_session_ops (cfg : CardCfg) (F fsc : Nat) (hfsc : 4 ≤ fsc) (ops : List Op) :
+    ∀ (pcd : Pcd) (w : World Card), SessInv pcd w.card → FlagOk pcd → fuelNeed pcd ≤ F → pcd.miu = (fsc : Int) - 3 →
+      OpsExact cfg F fsc ops pcd w := by
+  induction ops with
+  | nil => intro _ _ _ _ _ _; trivial
+  | cons o os ih =>
+    intro pcd w hs hfl hF hmiu
+    cases o with
+    | present =>
+      obtain ⟨h1, h2⟩ := isodep_presence_keeps_card cfg pcd w hs.1
+      refine ⟨h1, h2, ih pcd _ ?_ hfl hF hmiu⟩
+      rw [h1]; exact hs
+    | cmd c =>
+      obtain ⟨h1, h2, h3⟩ := exchange_step cfg F pcd c w hs
+      have hsp := exchange_spec (isoPeer cfg) F pcd hF hs.1 c w
+      have hnf := hsp.1
+      obtain ⟨hst1, hst2, hst3, hst4⟩ := hsp.2.2.2.2.1
+      have hF' : fuelNeed (exchange (isoPeer cfg) F pcd c w).2.1 ≤ F := by
+        unfold fuelNeed at hF ⊢; rw [hst2, hst3, hst4]; exact hF
+      refine ⟨h1, h2, ?_, ?_, ?_, ih _ _ (h3 hnf) ?_ hF' (by rw [hst1]; exact hmiu)⟩
+      · intro hc e he
+        have := hsp.2.2.2.2.2 (by omega) hc (flagOk_err3 hfl)
+        rw [he] at this; exact this
+      · intro e he; exact isodep_refuses_after_error _ F pcd c w e he
+      · intro hc; exact isodep_block_bound cfg F pcd c w fsc hfsc hmiu hc hs
+      · by_cases hc : c = []
+        · -- an empty string is not a command: nothing is sent, the flag is not touched
+          subst hc
+          intro e he
+          have : (exchange (isoPeer cfg) F pcd [] w).2.1.failed = pcd.failed := by
+            unfold exchange
+            cases hf : pcd.failed with
+            | some e' => simp [hf]
+            | none =>
+              have hun : exchangeCmd (isoPeer cfg) F pcd [] w = (w, pcd, .error .value) ∨
+                  exchangeCmd (isoPeer cfg) F pcd [] w = (w, pcd, .error .unbound) := by
+                unfold exchangeCmd
+                by_cases h0 : pcd.miu = 0
+                · left; simp [h0]
+                · right; simp [h0]
+              rcases hun with hun | hun <;> simp [hun, hf]
+          rw [this] at he; exact hfl e he
+        · have hm : 0 < pcd.miu := by omega
+          exact (isodep_error_kind (isoPeer cfg) F pcd c w hF hs.1 hm hc hfl).2
+
+/-- sessions after an activation: every FSCI (0..8 and the RFU values), FWI and device limit -/
+theorem isodep_session_from_activation (cfg : CardCfg) (ops : List Op) (fsci fwi maxSend : Nat) (hdev : 4 ≤ maxSend)
+    (script : List Fault) :
+    OpsExact cfg 966657 (deriveFsc fsci maxSend) ops (mkPcd fsci fwi maxSend) ⟨Card.init, script, []⟩ := by
+  have hmin : (if fsci > 8 then 8 else fsci) = min fsci 8 := by split <;> omega
+  have htab : ∀ i, i < 9 → 16 ≤ fscTable.getD i 256 := by decide
+  have h16 := htab (min fsci 8) (by omega)
+  have hge : 4 ≤ deriveFsc fsci maxSend := by unfold deriveFsc; simp only [hmin]; split <;> omega
+  exact isodep_session_ops cfg 966657 (deriveFsc fsci maxSend) hge ops _ _ (sess_init fsci fwi maxSend)
+    (by intro e he; simp [mkPcd] at he) (isodep_terminates_activated (isoPeer cfg) fsci fwi maxSend [] [] Card.init).1 rfl
+
+/-- **Once failed, always failed - presence checks in between do not re-open the session.**  After an unrecoverable
+error, whatever operations follow (any number of commands and presence checks in any order, any card): the reader state
+stays as it is, every command is answered with the same error, and the only blocks sent are the R(NAK) blocks of the
+presence checks. -/
+theorem isodep_session_latched {σ : Type} (P : Peer σ) (F : Nat) (e : Int) (ops : List Op) :
+    ∀ (pcd : Pcd) (w : World σ), pcd.failed = some e →
+      (runOps P F ops pcd w).2.1 = pcd ∧
+      (∀ r ∈ (runOps P F ops pcd w).2.2, (∃ u, r = .pres u) ∨ r = .rsp (.error (.tagCmd e))) ∧
+      (∀ b ∈ (runOps P F ops pcd w).1.trace, b ∈ w.trace ∨ b = [0xB2 ||| pcd.pni]) := by
+  induction ops with
+  | nil => intro pcd w _; exact ⟨rfl, by simp [runOps], fun b hb => Or.inl hb⟩
+  | cons o os ih =>
+    intro pcd w hf
+    cases o with
+    | cmd c =>
+      have hx := isodep_refuses_after_error P F pcd c w e hf
+      simp only [runOps, step, hx]
+      obtain ⟨i1, i2, i3⟩ := ih pcd w hf
+      refine ⟨i1, ?_, i3⟩
+      intro r hr
+      rcases List.mem_cons.mp hr with rfl | hr
+      · exact Or.inr rfl
+      · exact i2 r hr
+    | present =>
+      simp only [runOps, step]
+      obtain ⟨i1, i2, i3⟩ := ih pcd (presence P pcd w).1 hf
+      refine ⟨i1, ?_, ?_⟩
+      · intro r hr
+        rcases List.mem_cons.mp hr with rfl | hr
+        · exact Or.inl ⟨_, rfl⟩
+        · exact i2 r hr
+      · intro b hb
+        rcases i3 b hb with h | h
+        · have htr : (presence P pcd w).1.trace = w.trace ++ [[0xB2 ||| pcd.pni]] := by
+            rw [presence_world, xchg_trace]
+          rw [htr] at h
+          rcases List.mem_append.mp h with h | h
+          · exact Or.inl h
+          · simp at h; exact Or.inr h
+        · exact Or.inr h
+
+def exCfg : CardCfg := ⟨253, 0, 0, 0, 1, fun n c => c ++ [n, 0x90, 0]⟩
+def exPcd : Pcd := { pni := 0, miu := 253, nNak := 1, nAck := 1, wlim := 59 }
+/-- first exchange: command delivered, response and its retransmission lost; presence check answered;
+second exchange: I-block would be lost -/
+def exWorld : World Card := ⟨Card.init, [.d, .l, .d, .l, .d, .d, .l, .d, .d], []⟩
+
+/-- the witness of the former finding `isodep-stale-after-error` with a presence check in between (seeds C12-r2m3 /
+r3m1: the latch cleared by `is_present`): the second command used to return the response of the first one; it raises
+the error of the first exchange and the card sees nothing but the R(NAK) of the presence check -/
+example :
+    (runOps (isoPeer exCfg) 8 [.cmd [1, 1], .present, .cmd [2, 2]] exPcd exWorld).2.2 =
+      [.rsp (.error (.tagCmd TIMEOUT_ERROR)), .pres (.ok ()), .rsp (.error (.tagCmd TIMEOUT_ERROR))] ∧
+    (runOps (isoPeer exCfg) 8 [.cmd [1, 1], .present, .cmd [2, 2]] exPcd exWorld).1.trace = [[2, 1, 1], [0xB2], [0xB2]] ∧
+    (runOps (isoPeer exCfg) 8 [.cmd [1, 1], .present, .cmd [2, 2]] exPcd exWorld).1.card.log = [[1, 1]] := by decide
+
+/-! ## activation parameters -/
+
 /-- **FSC / FWT derivation.** FSCI indexes the ISO table (RFU values 9..15 read as 8 = 256 octets), the result is
 clamped to the device limit; the retry budget is `min(int(1/FWT), 5)` with `FWT = 4096/13.56 MHz * 2^FWI`
-(FWI 15 read as 4): 5 for FWI ≤ 9, 3 for FWI 10, 1 for FWI 11, none from FWI 12 on. -/
+(FWI 15 read as 4): 5 for FWI ≤ 9, 3 for FWI 10, 1 for FWI 11, none from FWI 12 on; the S(WTX) limit is
+`59 * 2^(14 - FWI)` multiplier units (the waiting time one request with WTXM 59 gets at FWI 14). -/
 theorem fsc_fwt_derivation (fsci fwi maxSend : Nat) :
     deriveFsc fsci maxSend = min (fscTable.getD (min fsci 8) 256) maxSend ∧
     fscTable.getD (min fsci 8) 256 ∈ fscTable ∧
     (mkPcd fsci fwi maxSend).miu = (deriveFsc fsci maxSend : Int) - 3 ∧
-    (mkPcd fsci fwi maxSend).pni = 0 ∧
+    (mkPcd fsci fwi maxSend).pni = 0 ∧ (mkPcd fsci fwi maxSend).failed = none ∧
     (mkPcd fsci fwi maxSend).nNak = deriveRetry fwi ∧ (mkPcd fsci fwi maxSend).nAck = deriveRetry fwi ∧
     deriveRetry fwi ≤ 5 ∧
     (fwi ≤ 9 ∨ fwi = 15 → deriveRetry fwi = 5) ∧ (fwi = 10 → deriveRetry fwi = 3) ∧
     (fwi = 11 → deriveRetry fwi = 1) ∧ (12 ≤ fwi ∧ fwi ≤ 14 → deriveRetry fwi = 0) ∧
-    (16 ≤ maxSend → 13 ≤ (mkPcd fsci fwi maxSend).miu) := by
+    (16 ≤ maxSend → 13 ≤ (mkPcd fsci fwi maxSend).miu) ∧
+    (mkPcd fsci fwi maxSend).wlim = 59 * 2 ^ (14 - (if fwi > 14 then 4 else fwi)) ∧
+    59 ≤ (mkPcd fsci fwi maxSend).wlim ∧ (mkPcd fsci fwi maxSend).wlim ≤ 966656 := by
   have hmin : (if fsci > 8 then 8 else fsci) = min fsci 8 := by split <;> omega
   have htab : ∀ i, i < 9 → fscTable.getD i 256 ∈ fscTable ∧ 16 ≤ fscTable.getD i 256 := by decide
   have ht := htab (min fsci 8) (by omega)
@@ -382,7 +556,9 @@ theorem fsc_fwt_derivation (fsci fwi maxSend : Nat) :
       (12 ≤ k → min (13560000 / (4096 * 2 ^ k)) 5 = 0) := by decide
   have hfwi : deriveFwi fwi < 15 := by unfold deriveFwi; split <;> omega
   have hr := hretry (deriveFwi fwi) hfwi
-  refine ⟨hfsc, ht.1, rfl, rfl, rfl, rfl, hr.1, ?_, ?_, ?_, ?_, ?_⟩
+  have hpow : 1 ≤ 2 ^ (14 - deriveFwi fwi) ∧ 2 ^ (14 - deriveFwi fwi) ≤ 2 ^ 14 :=
+    ⟨Nat.one_le_two_pow, Nat.pow_le_pow_right (by omega) (by omega)⟩
+  refine ⟨hfsc, ht.1, rfl, rfl, rfl, rfl, rfl, hr.1, ?_, ?_, ?_, ?_, ?_, rfl, ?_, ?_⟩
   · intro h
     have : deriveFwi fwi ≤ 9 := by unfold deriveFwi; split <;> omega
     exact hr.2.1 this
@@ -392,8 +568,10 @@ theorem fsc_fwt_derivation (fsci fwi maxSend : Nat) :
   · intro h
     show 13 ≤ (deriveFsc fsci maxSend : Int) - 3
     omega
+  · show 59 ≤ 59 * 2 ^ (14 - deriveFwi fwi); omega
+  · show 59 * 2 ^ (14 - deriveFwi fwi) ≤ 966656; omega
 
-example : mkPcd 2 11 24 = { pni := 0, miu := 21, nNak := 1, nAck := 1 } := by decide
+example : mkPcd 2 11 24 = { pni := 0, miu := 21, nNak := 1, nAck := 1, wlim := 472 } := by decide
 theorem t0_bits : ∀ (f : Fin 16) (a b c : Bool),
     ((f.val ||| (if a then 0x10 else 0) ||| (if b then 0x20 else 0) ||| (if c then 0x40 else 0)) &&& 0x0F = f.val) ∧
     (((f.val ||| (if a then 0x10 else 0) ||| (if b then 0x20 else 0) ||| (if c then 0x40 else 0)) &&& 0x10 ≠ 0) ↔ a = true) ∧
@@ -425,8 +603,8 @@ theorem isodep_block_bound_ats (cfg : CardCfg) (F : Nat) (fsci : Nat) (hf : fsci
   ⟨_, ats_derivation fsci hf ta tb tc hist maxSend,
     isodep_block_bound_derived cfg F fsci _ maxSend cmd script hdev hcmd⟩
 
-example : activateA [2, 0x00] 256 = .ok { pni := 0, miu := 13, nNak := 5, nAck := 5 } := by decide
-example : activateA (mkAts 1 none (some 0xB0) (some 2) [0x80, 0x01]) 256 = .ok { pni := 0, miu := 21, nNak := 1, nAck := 1 } := by decide
-example : activateA [5, 0x78, 0x80, 0x70, 0x02] 256 = .ok { pni := 0, miu := 253, nNak := 5, nAck := 5 } := by decide
+example : activateA [2, 0x00] 256 = .ok { pni := 0, miu := 13, nNak := 5, nAck := 5, wlim := 60416 } := by decide
+example : activateA (mkAts 1 none (some 0xB0) (some 2) [0x80, 0x01]) 256 = .ok { pni := 0, miu := 21, nNak := 1, nAck := 1, wlim := 472 } := by decide
+example : activateA [5, 0x78, 0x80, 0x70, 0x02] 256 = .ok { pni := 0, miu := 253, nNak := 5, nAck := 5, wlim := 7552 } := by decide
 
 end NfcVerif.C12
